@@ -369,6 +369,7 @@ fn gen_range(r: &mut Rng, m: &Model) -> (usize, usize) {
         2 => bs,
         3 => bs + r.usize_below(2 * p + 2),
         4 => usize::MAX - r.usize_below(3 * p + 2),
+        5 if r.chance(1, 4) => crate::common::gen::pow2_near(r) as usize,
         5 => (r.usize_below(m.pages() + 1)) * p,
         6 => (r.usize_below(m.pages() + 1) * p).saturating_sub(1),
         _ => r.usize_below(bs + 1),
@@ -382,6 +383,8 @@ fn gen_range(r: &mut Rng, m: &Model) -> (usize, usize) {
         5 => usize::MAX - r.usize_below(4),
         6 => bs.saturating_sub(start) + r.usize_below(3),
         7 => usize::MAX - start + r.usize_below(3).min(start),
+        // spans of 2^k +- d pages for every k (width-truncating arithmetic, threshold fast paths)
+        8 => (crate::common::gen::pow2_near(r) as usize).saturating_mul(if r.chance(1, 2) { 1 } else { p }),
         _ => r.usize_below(3 * p + 2),
     };
     (start, len)
@@ -551,6 +554,75 @@ pub fn run(args: &Args) {
             out::viol("C09/option-some-slice", jobj! {"pages" => got});
         }
         out::key("trivial|unit|none|some", true);
+    }
+    // page indices beyond 2^32 (a 16 TiB guest with 4 KiB pages; here: page size 1): index
+    // arithmetic narrower than usize would alias them onto low pages
+    if args.shard().0 == 0 && !cfg!(miri) && !args.flag("nohuge") {
+        let r0 = guarded(|| {
+            let pages = (1usize << 32) + 70_000;
+            let b = AtomicBitmap::new(pages, NonZeroUsize::new(1).unwrap());
+            let lim = 1usize << 32;
+            let mut want: BTreeSet<usize> = BTreeSet::new();
+            let probes = |b: &AtomicBitmap, want: &BTreeSet<usize>, ctx: &str| {
+                let mut pts: Vec<usize> = vec![0, 1, 63, 64, 0x1234, 69_999, lim - 65, lim - 1, lim, lim + 1, lim + 63, lim + 64, lim + 0x1234, pages - 1, pages, pages + 5];
+                pts.extend(want.iter().flat_map(|p| [*p, p.wrapping_sub(1), p + 1, p.wrapping_sub(lim), p % lim]));
+                for p in pts {
+                    let w = p < pages && want.contains(&p);
+                    if b.is_bit_set(p) != w || b.is_addr_set(p) != w || b.dirty_at(p) != w {
+                        out::viol("C09/huge/page-state-differs-from-model", jobj! {"ctx" => ctx, "page" => p, "want_set" => w, "is_bit_set" => b.is_bit_set(p)});
+                        return false;
+                    }
+                }
+                true
+            };
+            let steps: Vec<(&str, usize, usize, bool)> = vec![
+                ("mark above 2^32", lim + 0x1234, 8, true),
+                ("mark straddling 2^32", lim - 3, 7, true),
+                ("mark single page 2^32", lim, 1, true),
+                ("mark near the end", pages - 2, 10, true),
+                ("mark low alias", 0x1234 + 3, 2, true),
+                ("reset above 2^32", lim + 0x1236, 3, false),
+                ("reset low alias region", 0x1230, 4, false),
+                ("mark word-straddling above 2^32", lim + 60, 10, true),
+                ("reset straddling 2^32", lim - 1, 2, false),
+            ];
+            for (name, s0, l, set) in steps {
+                if set {
+                    b.set_addr_range(s0, l);
+                } else {
+                    b.reset_addr_range(s0, l);
+                }
+                for p in s0..(s0 + l).min(pages) {
+                    if set {
+                        want.insert(p);
+                    } else {
+                        want.remove(&p);
+                    }
+                }
+                if !probes(&b, &want, name) {
+                    return;
+                }
+                out::key(&format!("huge|{}", name), true);
+                out::eval(1);
+            }
+            b.set_bit(lim + 999);
+            want.insert(lim + 999);
+            b.reset_bit(lim + 0x1234);
+            want.remove(&(lim + 0x1234));
+            probes(&b, &want, "set_bit/reset_bit above 2^32");
+            // views
+            let sl = b.slice_at(lim);
+            sl.mark_dirty(5000, 3);
+            want.extend([lim + 5000, lim + 5001, lim + 5002]);
+            probes(&b, &want, "slice_at(2^32).mark_dirty");
+            if b.len() != pages || b.byte_size() != pages {
+                out::viol("C09/huge/len", jobj! {"len" => b.len(), "byte_size" => b.byte_size()});
+            }
+            out::count("huge_bitmap_pages", pages as i128);
+        });
+        if let Err(p) = r0 {
+            out::viol(&format!("C09/panic/huge/{}", panic_sig(&p)), J::s(p));
+        }
     }
     let pages_list = [1usize, 2, 3, 5, 7, 64, 100, 128, 4096];
     let lo = args.u64("minops", 30);
